@@ -145,10 +145,10 @@ def StrToInt(input_string):
     :return BV:                     bitvector of the integer resulting from the string or -1 in
                                     bitvector if the string cannot be transformed into an integer
     """
-    try:
-        return BVV(int(input_string.value), 64)
-    except ValueError:
+    # only non-empty strings of ASCII digits denote a number (int() also accepts "-5", " 5", "+5", "1_0", ...)
+    if not (input_string.value.isascii() and input_string.value.isdigit()):
         return BVV(-1, 64)
+    return BVV(int(input_string.value), 64)
 
 
 def StrIsDigit(input_string):
